@@ -606,6 +606,9 @@ def run_session(arg: dict) -> dict:
     import logging
     logging.disable(logging.CRITICAL)
     sys.setswitchinterval(0.005)
+    compiler_only = bool(arg.get("compiler_only"))
+    if compiler_only:
+        compiler_only_setup(arg.get("recursion_limit", 1000))
     rec = install() if arg.get("instrument") else None
     sess = Session()
     out: dict = {"results": [], "memo": []}
@@ -628,13 +631,27 @@ def run_session(arg: dict) -> dict:
         if full == "all" or i in full:
             row["full"] = res
         out["results"].append(row)
-        out["memo"].append(memo_snapshot() if call["kind"] not in ("gc", "churn") else None)
+        out["memo"].append(memo_snapshot() if call["kind"] not in ("gc", "churn") and not compiler_only else None)
         res = None
     if rec is not None:
         gc.collect()
         out["events"] = rec.events
         out["problems"] = rec.problems
+    if compiler_only:
+        out["process"] = process_facts()
     return out
+
+
+def compiler_only_setup(limit: int) -> None:
+    """a process that uses only the compiler: the interpreter's default recursion limit (the harness worker raised it), and no
+    import of the decompiler package (graph_minimizer raises the limit at import)"""
+    sys.setrecursionlimit(limit)
+    import explorerscript.ssb_converting.ssb_compiler  # noqa
+
+
+def process_facts() -> dict:
+    return {"recursion_limit": sys.getrecursionlimit(), "switchinterval": sys.getswitchinterval(),
+            "decompiler_imported": any(m.endswith("graph_minimizer") for m in sys.modules), "cwd": os.getcwd()}
 
 
 def print_param_cases(cases: list[dict]) -> list[dict]:
@@ -877,6 +894,68 @@ class SchedLock:
 
     def locked(self) -> bool:
         return self._real.locked()
+
+
+def run_compile_threads(arg: dict) -> dict:
+    """Compiler-only concurrency scenario (save/modify/restore of interpreter-wide settings): threads compile their inputs
+    `repeat` times with short pauses; threads marked "loop" keep compiling their (small) inputs until all others are done.
+    arg: {"threads": [{"calls": [CALL], "loop": bool}], "recursion_limit", "switchinterval", "pause_ms", "repeat"}
+    -> {"results": [[row]], "process_before", "process_after", "errors", "broken"}"""
+    import logging
+    logging.disable(logging.CRITICAL)
+    compiler_only_setup(arg.get("recursion_limit", 1000))
+    threading.stack_size(64 * 1024 * 1024)
+    specs = arg["threads"]
+    n = len(specs)
+    out: dict = {"process_before": process_facts(), "broken": None}
+    results: list[list] = [[] for _ in range(n)]
+    errors: list[Any] = [None] * n
+    pause = arg.get("pause_ms", 2) / 1000.0
+    workers_left = [sum(1 for sp in specs if not sp.get("loop"))]
+    lock = threading.Lock()
+    barrier = threading.Barrier(n)
+    sys.setswitchinterval(arg.get("switchinterval", 1e-6))
+
+    def row_of(res: dict) -> dict:
+        return {"digest": digest(res), "summary": {k: res[k] for k in ("error", "site", "msg") if k in res}}
+
+    def worker(i: int) -> None:
+        sp = specs[i]
+        try:
+            barrier.wait(30)
+            sess = Session()
+            it = 0
+            while True:
+                for c in sp["calls"]:
+                    results[i].append(row_of(do_call(sess, c)))
+                    time.sleep(pause)
+                it += 1
+                if sp.get("loop"):
+                    if workers_left[0] <= 0 or it >= arg.get("max_loop", 400):
+                        break
+                elif it >= arg.get("repeat", 2):
+                    break
+        except BaseException as e:  # noqa
+            errors[i] = "harness: " + type(e).__name__ + ": " + str(e)[:200]
+        finally:
+            if not sp.get("loop"):
+                with lock:
+                    workers_left[0] -= 1
+
+    ths = [threading.Thread(target=worker, args=(i,), daemon=True) for i in range(n)]
+    for t in ths:
+        t.start()
+    deadline = time.time() + arg.get("budget_s", 120)
+    for t in ths:
+        t.join(max(0.1, deadline - time.time()))
+    if any(t.is_alive() for t in ths):
+        out["broken"] = "threads still running at the end of the time budget"
+        workers_left[0] = 0
+    sys.setswitchinterval(0.005)
+    out["results"] = results
+    out["errors"] = errors
+    out["process_after"] = process_facts()
+    return out
 
 
 def run_threads(arg: dict) -> dict:
